@@ -73,12 +73,21 @@ claim('C20',
       "Fault kinds are the ones TC allows (any error that is not DirectoryExists/FileExists from observers); copy_dir/move_dir not covered.",
       "DESIGN.md section 5, C20")
 
+claim('C13',
+      "Panic-freedom is the implicit obligation set Verus generates for every extracted function (arithmetic overflow/underflow, index and slice bounds, char boundaries of str slices, unwrap/expect on None/Err, unreachable panics, callee preconditions), checked for ALL arguments under the type invariants canonical(path) and layers.len() >= 1. "
+      "Discharged for every function under contract in U01-U14: all MemoryFS methods and both handle types, PathLike, every VfsPath method except copy_dir/move_dir, WalkDirIterator::next, AltrootFS, OverlayFS (incl. read_dir's byte-length slicing of the '_wo' suffix), PhysicalFS::get_path/create_dir, EmbeddedFS::normalize_path/exists/refusals, error conversions, trait defaults. "
+      "Seven panics found this way were genuine and are repaired by fix: commits (reader len/seek, EmbeddedFS::open_file on the root, PhysicalFS read_dir/create_dir unwraps).",
+      "Not covered (listed in evidence): functions out of Verus's reach - PhysicalFS methods other than get_path/create_dir (std::fs calls), EmbeddedFS::new/read_dir/metadata/open_file (rust-embed), copy_dir/move_dir, VfsPath::new, the async port; lock poisoning (unwrap on RwLock) is excluded by rule R4; termination of remove_dir_all is not proved. Bounded stand-ins (oracle crate) cover part of the rest in the thorough tier.",
+      "DESIGN.md section 5, C13")
+claim('C18',
+      "Proved for the parts inside the crate that Verus can reach: the five mutators (create_dir, create_file, append_file, remove_file, remove_dir) return NotSupported for every path (and, taking &self on a struct without interior mutability, change nothing); exists is total and reports the root as existing; normalize_path strips exactly the leading '/' without panicking on any canonical path (after the fix commit open_file uses it too).",
+      "EmbeddedFS::new / read_dir / metadata / open_file call into rust-embed (T::get, T::iter), which cannot be linked in single-file Verus mode: they are assumed; equality with a PhysicalFS on the same folder is outside (OS). This is a partial claim by construction.",
+      "DESIGN.md section 5, C18")
+
 for _pid, _why in {
     'C02': "relational against the operating system: one side of the relation (PhysicalFS/std::fs) can only be assumed, so no contract within reach decides it (DESIGN section 5, C02)",
     'C16': "quantifies over thread interleavings; Kani has no threads and Verus can only reason about its own permission-carrying lock types, which the real code does not use (DESIGN section 5, C16)",
     'C17': "quantifies over thread interleavings (same reason as C16); the sequential facts it rests on are proved under C01/C11/C12 but do not decide it",
 }.items():
     na(_pid, _why)
-for _pid in ['C01', 'C03', 'C04', 'C05', 'C06', 'C07', 'C08', 'C09', 'C10', 'C11', 'C12', 'C13', 'C15', 'C18', 'C19', 'C20']:
-    if _pid not in CHECKS:
-        na(_pid, "not claimed yet: the unit(s) carrying this property's contracts are still being built (see DESIGN.md section 11 for the order)")
+na('C15', "not claimed: the async port (src/async_vfs/**) is a line-by-line port whose units are not under contract yet; independence from poll schedules (Pending at arbitrary points) is a statement over schedules that no contract within reach can express (DESIGN section 5, C15)")
